@@ -246,8 +246,24 @@ func (e *grEnv) exec(o []string) []string {
 			func(n types.Node) *H { return &H{term: "OP", core: "OP", node: n} }, opts...)
 		return []string{"ok"}
 	case "gremove":
+		if r := e.g.Router(o[1]); r != nil { // the removed router object stays usable (and can be added again)
+			e.solo[o[1]] = r
+		}
 		e.g.Remove(o[1])
 		return []string{"ok"}
+	case "gadd": // Group.Add(matcher, r) with an existing router object: one made by rnew or one removed earlier
+		r, ok := e.solo[o[1]]
+		if !ok {
+			return []string{"norouter"}
+		}
+		out := outcome(guard(func() {
+			m, _ := parseMatcher(o[2:])
+			e.g.Add(m, r)
+		}))
+		if out[0] == "ok" {
+			delete(e.solo, o[1])
+		}
+		return out
 	case "guse":
 		ids, _ := takeList(o[1:])
 		e.g.Use(e.mws(ids)...)
@@ -411,7 +427,25 @@ func genGR(focus string) func(r *rand.Rand, w *W) [][]string {
 			ops = append(ops, append([]string{"guse"}, list(newMws(2)...)...))
 		}
 		if r.Intn(4) == 0 && len(names) > 0 {
-			ops = append(ops, []string{"gremove", pick(r, names)})
+			gone := pick(r, names)
+			ops = append(ops, []string{"gremove", gone})
+			if r.Intn(2) == 0 { // the same router object comes back, usually without a matcher
+				m := []string{"any"}
+				if r.Intn(3) == 0 {
+					m = genMatcher(r, 0)
+				}
+				ops = append(ops, append([]string{"gadd", gone}, m...))
+			}
+		}
+		if len(solo) > 0 && r.Intn(3) == 0 { // a router created outside joins the group
+			m := []string{"any"}
+			if r.Intn(2) == 0 {
+				m = genMatcher(r, 0)
+			}
+			ops = append(ops, append([]string{"gadd", "solo"}, m...))
+			if r.Intn(2) == 0 {
+				solo = nil // no longer addressed as a router of its own
+			}
 		}
 		layers := append([]string{"NF", "NA", "OP", "TR", "GNF", "GNF"}, allMws...)
 		layers = append(layers, allMws...)
